@@ -61,6 +61,7 @@ func propC13(w *World, r *Report) {
 		RunClosureState(w, r, cffFns)
 		r.Floor("closurestate", 2)
 		RunFDSelectFill(w, r)
+		RunPredefEncoding(w, r)
 		RunStructCover(w, r, "cff", "Outlines", []string{"cff.Read"}, []string{"(*cff.Font).Write"})
 		RunStructCover(w, r, "cff", "Font", []string{"cff.Read"}, []string{"(*cff.Font).Write"})
 	}
